@@ -15,7 +15,8 @@ PSchema ==
   << DInt("i", "7"), DStr("s", "d"), DIntList("l", <<"1","2">>), DStrList("sl", <<>>),
      WithFlags(DInt("nd", "0"), {"NODEFAULT"}), DFloat("f", "1.5"), DBool("b", "false"),
      DSec("sec", {}, << DInt("x", "5"), DStr("s", Null),
-                        DSec("sub", {}, << DInt("y", "1"), DInt("x", "3") >>) >>),
+                        DSec("sub", {}, << DInt("y", "1"), DInt("x", "3") >>),
+                        DFunc("g", "user") >>),
      DSec("t", {"MULTI","TITLE"}, << DInt("x", "5"), DIntList("l", <<>>) >>),
      DFunc("fn", "user") >>
 
